@@ -745,7 +745,7 @@ var _ = big.NewInt
 func (c *SpecCtx) tryTerm(e ast.Expr) (t *Term) {
 	defer func() {
 		if r := recover(); r != nil {
-			if ee, ok := r.(engineError); ok && strings.Contains(ee.msg, "nil p") {
+			if ee, ok := r.(engineError); ok && (strings.Contains(ee.msg, "nil p") || strings.Contains(ee.msg, "out of range")) {
 				t = BoolC(true)
 				return
 			}
